@@ -289,6 +289,43 @@ impl<const M: usize> Sim<M> {
                 (3, true) => b.try_alloc_slice_fill_copy(len, fillv).ok().map(|s| s.as_mut_ptr()),
                 (4, false) => Some(b.alloc_slice_fill_clone(len, &fillv).as_mut_ptr()),
                 (4, true) => b.try_alloc_slice_fill_clone(len, &fillv).ok().map(|s| s.as_mut_ptr()),
+                (6, f) => {
+                    // an ExactSizeIterator (a safe trait) that under-reports its length: the slice
+                    // must have exactly len() elements and nothing may be written beyond it
+                    struct Liar<'a, T: Copy> {
+                        src: &'a [T],
+                        i: usize,
+                        extra: usize,
+                    }
+                    impl<'a, T: Copy> Iterator for Liar<'a, T> {
+                        type Item = T;
+                        fn next(&mut self) -> Option<T> {
+                            if self.i < self.src.len() + self.extra {
+                                let v = self.src[self.i % self.src.len().max(1)];
+                                self.i += 1;
+                                Some(v)
+                            } else {
+                                None
+                            }
+                        }
+                        fn size_hint(&self) -> (usize, Option<usize>) {
+                            let n = self.src.len().saturating_sub(self.i.min(self.src.len()));
+                            (n, Some(n))
+                        }
+                    }
+                    impl<'a, T: Copy> ExactSizeIterator for Liar<'a, T> {}
+                    let it = Liar { src: &src, i: 0, extra: if src.is_empty() { 0 } else { 1 + len % 7 } };
+                    if f {
+                        b.try_alloc_slice_fill_iter(it).ok().map(|s| {
+                            assert_eq!(s.len(), len);
+                            s.as_mut_ptr()
+                        })
+                    } else {
+                        let s = b.alloc_slice_fill_iter(it);
+                        assert_eq!(s.len(), len);
+                        Some(s.as_mut_ptr())
+                    }
+                }
                 (_, false) => Some(
                     b.alloc_slice_fill_iter(src.iter().enumerate().map(|(i, v)| {
                         order.push(i);
@@ -308,7 +345,7 @@ impl<const M: usize> Sim<M> {
         let ev = self.end(rep, OpKind::Alloc);
         let out = match r {
             Ok(Some(p)) => {
-                if kind == 2 || kind >= 5 {
+                if kind == 2 || kind == 5 {
                     let good = order.len() == len && order.iter().enumerate().all(|(i, &x)| i == x);
                     if !good {
                         rep.violate("C02", "C02/initialiser-call-order/slice", format!("len {} calls {:?}", len, &order[..order.len().min(12)]));
@@ -550,6 +587,9 @@ impl<const M: usize> Sim<M> {
                 );
             }
             rep.bump("c11.reuse_probes");
+            if r.is_err() && asked == 0 {
+                rep.violate("C11", format!("C11/reserved-space-not-reusable/{}/request-refused", if fallible { "try_alloc_try_with" } else { "alloc_try_with" }), format!("same layout ({},{}) was refused although the failed value's space should be free again (limit {:?})", slot.size(), slot.align(), self.limit));
+            }
             if let Ok(p) = r {
                 let pid = self.next_id;
                 if self.register(rep, p.as_ptr(), slot.size(), slot.align(), pat_bytes(pid, slot.size()), Some((slot.size(), slot.align())), "probe").is_some() {
@@ -697,6 +737,9 @@ impl<const M: usize> Sim<M> {
                 );
             }
             rep.bump("c11.reuse_probes");
+            if r.is_err() && asked == 0 {
+                rep.violate("C11", "C11/reserved-space-not-reusable/slice_try_fill/request-refused", format!("same layout ({},{}) was refused (limit {:?})", size, align, self.limit));
+            }
             if let Ok(p) = r {
                 let pid = self.next_id;
                 if self.register(rep, p.as_ptr(), size, align, pat_bytes(pid, size), Some((size, align)), "probe").is_some() {
@@ -730,6 +773,8 @@ impl<const M: usize> Sim<M> {
                 if len < size {
                     rep.violate("C12", "C12/allocate/returned-slice-shorter-than-layout", format!("{} < {}", len, size));
                 }
+                // the caller may use every byte of the slice it was given, not only layout.size()
+                let usable = len.max(size).min(size + (1 << 20));
                 let ptr = p.cast::<u8>().as_ptr();
                 let id = self.next_id;
                 if zeroed {
@@ -738,9 +783,9 @@ impl<const M: usize> Sim<M> {
                         rep.violate("C12", "C12/allocate_zeroed/non-zero-byte", format!("byte {}", i));
                     }
                 }
-                if self.register(rep, ptr, size, align, pat_bytes(id, size), Some((size, align)), "allocate").is_some() {
+                if self.register(rep, ptr, usable, align, pat_bytes(id, usable), Some((size, align)), "allocate").is_some() {
                     unsafe {
-                        fill(ptr, &pat_bytes(id, size));
+                        fill(ptr, &pat_bytes(id, usable));
                     }
                 }
                 Outcome::Ok
@@ -811,7 +856,8 @@ impl<const M: usize> Sim<M> {
             None => return Outcome::Err,
         };
         let (old_size, old_align) = lv.layout.unwrap();
-        let grow = new_size >= old_size;
+        // equal sizes are legal for both grow and shrink: exercise both
+        let grow = new_size > old_size || (new_size == old_size && self.rng.chance(1, 2));
         let name = if grow { if zeroed { "grow_zeroed" } else { "grow" } } else { "shrink" };
         self.cur = format!("Allocator::{}(id {},({},{})->({},{}))", name, lv.id, old_size, old_align, new_size, new_align);
         let old_l = Layout::from_size_align(old_size, old_align).unwrap();
@@ -874,9 +920,18 @@ impl<const M: usize> Sim<M> {
                     }
                 }
                 let id = self.next_id;
+                // the caller owns every byte of the returned slice
+                let usable = p.len().max(new_size).min(new_size + (1 << 20));
+                if usable > new_size {
+                    let a = ptr as usize;
+                    let held = self.chunks.iter().any(|c| c.base <= a && a + usable <= c.base + c.size - self.k);
+                    if !held {
+                        rep.violate("C12", format!("C12/{}/returned-slice-longer-than-memory-reserved-for-it", name), format!("returned {} bytes for a {}-byte layout at {:#x} ({})", p.len(), new_size, a, self.cur));
+                    }
+                }
                 // new content: kept prefix, pattern of the new id for the tail
                 let mut newexp = exp;
-                for i in keep..new_size {
+                for i in keep..usable {
                     newexp.push(pat(id, i));
                 }
                 if !prefix_ok && inheld {
@@ -887,9 +942,9 @@ impl<const M: usize> Sim<M> {
                         }
                     }
                 }
-                if self.register(rep, ptr, new_size, new_align, newexp, Some((new_size, new_align)), name).is_some() {
+                if self.register(rep, ptr, usable, new_align, newexp, Some((new_size, new_align)), name).is_some() {
                     unsafe {
-                        for i in keep..new_size {
+                        for i in keep..usable {
                             ptr.add(i).write(pat(id, i));
                         }
                     }
